@@ -7,6 +7,14 @@ RoundTrip, ...) on the model and exports every case; harness/c10 realizes each c
 builder) + reflect-built Go types and compares the three real decoders with the verdict.  Oracle-free
 laws are additionally run on seeded byte-level mutations of the generated inputs.
 
+Tag classes (clause ClassTable of the specification): the field parameters explicit x {no class option, application, private,
+both} x tag numbers (0 implied, 1, 30 | 31, 40) x required / optional / default are a dimension of the type catalogue - on
+struct members and, through the parameter string of UnmarshalWithParams / MarshalWithParams, at top level (the parameters of a
+shape's root node; the options are written in both orders) - and the class of the identifier on the wire is a dimension of
+the inputs (defects class{Universal,Context,Application,Private}: a required member is rejected, an OPTIONAL one is absent and
+the element ignored, at top level nothing is consumed).  ReadClass / WriteClass are upstream's tables (re-confirmed against
+encoding/asn1 on every run); where they differ (ClassQuirk) the round trip is not asserted, MarshalAgrees is.
+
 spec/codec/Asn1LaxHist.tla is the history layer: Unmarshal / Marshal are functions of their arguments.  TLC
 draws histories of calls on one target type (random walks over the cases with repetition, fresh / re-used
 destination variable and input buffer), checks the laws of the destination model (slots; AbsentOptionalKeeps,
@@ -24,8 +32,13 @@ ASSUME = [
     "encoding/asn1 of the installed default toolchain (go1.23.5) is the upstream reference; the DeliberateDiff list "
     "(base-128 groups with a leading 0x80 accepted in OID arcs and high tag numbers; GeneralizedTime fractions "
     "rejected; SET OF not sorted by Marshal) is pinned to that toolchain",
-    "'all byte strings and all target types' is decided on the structured family of Asn1Lax.tla (38 type shapes x container "
-    "stacks of depth <= 2 over 5 container kinds x 3 value variants x 32 defects x paths x modes) plus seeded byte-level mutations of those inputs",
+    "'all byte strings and all target types' is decided on the structured family of Asn1Lax.tla (the type catalogue x container "
+    "stacks of depth <= 2 over 5 container kinds x 4 value variants x 36 defects x paths x modes; top-level parameter strings for the "
+    "shapes whose root carries field parameters) plus seeded byte-level mutations of those inputs",
+    "tag classes: which class Unmarshal expects and Marshal writes for explicit / implicit x application / private is upstream's "
+    "table (ExplicitIgnoresPrivate, ImplicitPrivateWins, MarshalApplicationWins, ClassImpliesTag0); a member for which the two differ "
+    "(ClassQuirk) does not round-trip in either package and RoundTrip is not asserted of it; an OPTIONAL member whose identifier has "
+    "another class is asserted only where no later member could take the element",
     "a `lax` struct-field tag (instead of the top-level \"lax\" parameter) is recorded, not asserted (clause FieldTagLax)",
     "named clauses where the property is silent and both packages have a definite behaviour: times written with a zone "
     "offset or without seconds are accepted and marshalled by the year as written (ZoneOffset, TagByWrittenYear); equal "
